@@ -248,6 +248,14 @@ def item_upgrade_flags(repo, out):
             and _u(ul[1].test) == "improved_info['shape'][1:]!=original_info['shape'][1:]"):
         raise TranslateError('_upgrade_chunk_info: shape check is not `shape[1:] != shape[1:] -> ValueError`')
     _match(r'chunk_info\[key\]=improved_info', _u(ul[2]), '_upgrade_chunk_info replacement')
+    # _ensure_prefix_is_set: an info without 'prefix' gets telstate[<chunk name key>] of the telstate it is given
+    ep = _func(tree, '_ensure_prefix_is_set', REL)
+    eb = [_u(s).replace('\n', ';') for s in _body(ep)]
+    if [a.arg for a in ep.args.args] != ['chunk_info', 'telstate'] or len(eb) != 2 or eb[1] != 'returnchunk_info':
+        raise TranslateError('_ensure_prefix_is_set: unexpected skeleton')
+    m = _match(r"forinfoinchunk_info\.values\(\):;if'prefix'notininfo:;info\['prefix'\]=telstate\[%s\]" % STR, eb[0],
+               '_ensure_prefix_is_set')
+    out.append('Definition ci_prefix_key : string := %s.' % coq_string(m.group(1)))
     out.append('Definition fl_archived_key : string := %s.' % coq_string(archived_key))
     out.append('Definition fl_type_key : string := %s.' % coq_string(type_key))
     out.append('Definition fl_type : string := %s.' % coq_string(ftype))
@@ -353,4 +361,249 @@ def item_open(repo, out):
     out.append('Definition url_keyword_wins : bool := %s.' % _bool(kw_wins))
 
 
-ITEMS = [item_view_capture_stream, item_l0_stream, item_upgrade_flags, item_open]
+# --------------------------------------------------------------------------- _shorten_key and the sensor loop
+
+_CMP = {ast.LtE: 'Nat.leb %(a)s %(b)s', ast.Lt: 'Nat.ltb %(a)s %(b)s', ast.GtE: 'Nat.leb %(b)s %(a)s',
+        ast.Gt: 'Nat.ltb %(b)s %(a)s', ast.Eq: 'Nat.eqb %(a)s %(b)s', ast.NotEq: 'negb (Nat.eqb %(a)s %(b)s)'}
+
+
+def item_sensor_loop(repo, out):
+    """_shorten_key (first prefix IN VIEW ORDER that fits, '' when none does) and the sensor-collection loop of
+    TelstateDataSource.__init__: which keys are sensors (key type), the rank expression and the comparison that
+    decides whether a key replaces the entry of the same sensor name.  sn_type_through_view: the type of the (full) key
+    is asked of the VIEW (which resolves the full key through its prefixes once more, the behaviour before the repair
+    of finding F-C18x-1) rather than of the root namespace; the getter must read from the same object."""
+    tree = _parse(repo, REL)
+    what = '_shorten_key'
+    fn = _func(tree, what, REL)
+    if [a.arg for a in fn.args.args] != ['telstate', 'key']:
+        raise TranslateError('%s: unexpected parameters' % what)
+    body = _body(fn)
+    if len(body) != 2 or not isinstance(body[0], ast.For) or body[0].orelse:
+        raise TranslateError('%s: expected `for prefix in ...: ...` then a return' % what)
+    loop = body[0]
+    it = _u(loop.iter)
+    if _u(loop.target) != 'prefix' or it not in ('telstate.prefixes', 'reversed(telstate.prefixes)', 'telstate.prefixes[::-1]'):
+        raise TranslateError('%s: loop is not over telstate.prefixes: %s' % (what, it))
+    if [_u(s).replace('\n', ';') for s in loop.body] != ['ifkey.startswith(prefix):;returnkey[len(prefix):]']:
+        raise TranslateError('%s: loop body is not `if key.startswith(prefix): return key[len(prefix):]`' % what)
+    m = _match(r"return%s" % STR, _u(body[1]), what + ' fall-through')
+    nomatch = m.group(1)
+    # the loop
+    what = 'TelstateDataSource.__init__ (sensors)'
+    init = _func(_class(tree, 'TelstateDataSource', REL), '__init__', REL)
+    loops = [s for s in init.body if isinstance(s, ast.For) and _u(s.iter) == 'telstate.keys()']
+    if len(loops) != 1 or loops[0].orelse or _u(loops[0].target) != 'key':
+        raise TranslateError('%s: expected exactly one `for key in telstate.keys():`' % what)
+    loop = loops[0]
+    i = init.body.index(loop)
+    before = [_u(s) for s in init.body[:i]]
+    has_root = before[-1:] == ['root=telstate.root()']
+    if has_root:
+        before = before[:-1]
+    if before[-2:] != ['sensors={}', 'namespace_ranks={}'] or 'sensors' in ''.join(before[:-2]) or 'root=' in ''.join(before):
+        raise TranslateError('%s: the loop does not start from empty `sensors` and `namespace_ranks`' % what)
+    if _u(init.body[i + 1]) != 'metadata=AttrsSensors(telstate,sensors)':
+        raise TranslateError('%s: the table is not handed to AttrsSensors right after the loop' % what)
+    if sum(_u(s).count('sensors[') for s in init.body) != 1 or _u(init).count('namespace_ranks[') != 1:
+        raise TranslateError('%s: sensors / namespace_ranks are assigned elsewhere too' % what)
+    if len(loop.body) != 1 or not isinstance(loop.body[0], ast.If) or loop.body[0].orelse:
+        raise TranslateError('%s: loop body is not one `if key_type ...:`' % what)
+    kt = loop.body[0]
+    m = _match(r'(telstate|root)\.key_type\(key\)(==|!=)katsdptelstate\.KeyType\.([A-Z]+)', _u(kt.test), what + ' key type test')
+    where, type_eq, type_name = m.group(1), m.group(2) == '==', m.group(3)
+    if (where == 'root') != has_root or _u(init).count('root=') != int(has_root):
+        raise TranslateError('%s: `root` is not `telstate.root()` taken right before the loop' % what)
+    if len(kt.body) != 2 or _u(kt.body[0]) != 'sensor_name=_shorten_key(telstate,key)':
+        raise TranslateError('%s: the sensor name is not `_shorten_key(telstate, key)`' % what)
+    ne = kt.body[1]
+    if not (isinstance(ne, ast.If) and _u(ne.test) == 'sensor_name' and not ne.orelse):
+        raise TranslateError('%s: expected `if sensor_name:`' % what)
+    inner = [s for s in ne.body if not (isinstance(s, ast.Expr) and isinstance(s.value, ast.Constant))]
+    if len(inner) != 2:
+        raise TranslateError('%s: expected the rank assignment and one comparison' % what)
+    _match(r'rank=telstate\.prefixes\.index\(key\[:len\(key\)-len\(sensor_name\)\]\)', _u(inner[0]), what + ' rank')
+    cmp_ = inner[1]
+    if not (isinstance(cmp_, ast.If) and not cmp_.orelse and isinstance(cmp_.test, ast.Compare)
+            and len(cmp_.test.ops) == 1 and type(cmp_.test.ops[0]) in _CMP):
+        raise TranslateError('%s: unsupported replacement test %s' % (what, _u(cmp_.test) if hasattr(cmp_, 'test') else ''))
+    left, right = cmp_.test.left, cmp_.test.comparators[0]
+
+    def old_rank(node):
+        if isinstance(node, ast.Call) and _u(node.func) == 'namespace_ranks.get' and len(node.args) == 2 \
+                and not node.keywords and _u(node.args[0]) == 'sensor_name':
+            d = node.args[1]
+            if _u(d) == 'rank':
+                return 'rank'
+            if isinstance(d, ast.Constant) and isinstance(d.value, int) and not isinstance(d.value, bool) and 0 <= d.value < 1000:
+                return '%d%%nat' % d.value
+            raise TranslateError('%s: unsupported default rank %s' % (what, _u(d)))
+        return None
+    if _u(left) == 'rank' and old_rank(right) is not None:
+        expr, default = _CMP[type(cmp_.test.ops[0])] % dict(a='rank', b='old'), old_rank(right)
+    elif _u(right) == 'rank' and old_rank(left) is not None:
+        expr, default = _CMP[type(cmp_.test.ops[0])] % dict(a='old', b='rank'), old_rank(left)
+    else:
+        raise TranslateError('%s: the replacement test does not compare rank with namespace_ranks.get(sensor_name, ...): %s'
+                             % (what, _u(cmp_.test)))
+    if [_u(s) for s in cmp_.body] != ['namespace_ranks[sensor_name]=rank', 'sensors[sensor_name]=TelstateSensorGetter(%s,key)' % where]:
+        raise TranslateError('%s: a replacing key does not record its rank and its getter' % what)
+    out.append('Definition sk_reversed : bool := %s.' % _bool(it != 'telstate.prefixes'))
+    out.append('Definition sk_nomatch : string := %s.' % coq_string(nomatch))
+    out.append('Definition sn_type_through_view : bool := %s.' % _bool(where == 'telstate'))
+    out.append('Definition sn_key_type : string := %s.' % coq_string(type_name))
+    out.append('Definition sn_key_type_eq : bool := %s.' % _bool(type_eq))
+    out.append('Definition sn_replaces (rank old : nat) : bool := (%s)%%nat.' % expr)
+    out.append('Definition sn_default_rank (rank : nat) : nat := %s.' % default)
+
+
+# --------------------------------------------------------------------------- from_url / open_data_source / katdal.open: sources
+
+def _exc_names(node):
+    if node is None:
+        return None
+    elts = node.elts if isinstance(node, ast.Tuple) else [node]
+    return [_u(e).split('.')[-1] for e in elts]
+
+
+def item_sources(repo, out):
+    """Which failures of a source are reported as DataSourceNotFound: the scheme dispatch of from_url, the exceptions
+    caught around load_from_file, the unknown-scheme branch; open_data_source re-raises the same class; katdal.open
+    sends '*.rdb' paths and anything with a scheme to open_data_source."""
+    tree = _parse(repo, REL)
+    cls = _class(tree, 'TelstateDataSource', REL)
+    fu = _func(cls, 'from_url', REL)
+    what = 'from_url'
+    if [a.arg for a in fu.args.args] != ['cls', 'url', 'chunk_store'] or [_u(d) for d in fu.args.defaults] != ["'auto'"]:
+        raise TranslateError('%s: unexpected parameters' % what)
+    body = _body(fu)
+    if _u(body[0]) != 'url_parts=parse_url_or_path(url)':
+        raise TranslateError('%s: the URL is not parsed by parse_url_or_path first' % what)
+    chains = [s for s in body if isinstance(s, ast.If) and _u(s.test).startswith('url_parts.scheme')]
+    if len(chains) != 1:
+        raise TranslateError('%s: expected one dispatch on url_parts.scheme' % what)
+    node, branches = chains[0], []
+    while True:
+        branches.append((node.test, node.body))
+        if len(node.orelse) == 1 and isinstance(node.orelse[0], ast.If):
+            node = node.orelse[0]
+        else:
+            final = node.orelse
+            break
+    schemes, file_scheme, caught, raised = [], None, None, None
+    for test, b in branches:
+        t = _u(test)
+        m = re.fullmatch(r"url_parts\.scheme==%s" % STR, t)
+        if m:
+            names = [m.group(1)]
+        else:
+            m = re.fullmatch(r"url_parts\.schemein\{(.*)\}", t)
+            if not m:
+                raise TranslateError('%s: unsupported scheme test %s' % (what, t))
+            names = [re.fullmatch(STR, x).group(1) for x in m.group(1).split(',')]
+        schemes += names
+        if any('load_from_file(url_parts.path)' in _u(s) for s in b):
+            if file_scheme is not None or len(names) != 1:
+                raise TranslateError('%s: more than one branch loads a file' % what)
+            file_scheme = names[0]
+            trys = [s for s in b if isinstance(s, ast.Try)]
+            if len(trys) != 1 or len(trys[0].handlers) != 1 or trys[0].orelse or trys[0].finalbody \
+                    or [_u(s) for s in trys[0].body] != ['telstate.load_from_file(url_parts.path)']:
+                raise TranslateError('%s: the RDB file is not loaded inside one try/except' % what)
+            h = trys[0].handlers[0]
+            caught = _exc_names(h.type)
+            if caught is None or len(h.body) != 1 or not isinstance(h.body[0], ast.Raise) or h.body[0].exc is None:
+                raise TranslateError('%s: unsupported handler around load_from_file' % what)
+            raised = _u(h.body[0].exc.func) if isinstance(h.body[0].exc, ast.Call) else _u(h.body[0].exc)
+            if [_u(s) for s in b if not isinstance(s, ast.Try)] != ['telstate=katsdptelstate.TelescopeState()']:
+                raise TranslateError('%s: unexpected statements in the file branch' % what)
+    if file_scheme is None:
+        raise TranslateError('%s: no branch loads an RDB file' % what)
+    if len(final) != 1 or not isinstance(final[0], ast.Raise) or not isinstance(final[0].exc, ast.Call):
+        raise TranslateError('%s: an unknown scheme does not raise' % what)
+    unknown = _u(final[0].exc.func)
+    # nothing between the dispatch and the view may swallow or re-class errors: no other try at top level
+    if any(isinstance(s, ast.Try) for s in body):
+        raise TranslateError('%s: unexpected top-level try statement' % what)
+    # open_data_source
+    what = 'open_data_source'
+    od = _body(_func(tree, what, REL))
+    if not (len(od) == 1 and isinstance(od[0], ast.Try) and len(od[0].handlers) == 1 and not od[0].orelse and not od[0].finalbody
+            and [_u(s) for s in od[0].body] == ['returnTelstateDataSource.from_url(url,**kwargs)']):
+        raise TranslateError('%s: not `try: return TelstateDataSource.from_url(url, **kwargs) except ...`' % what)
+    h = od[0].handlers[0]
+    ods_caught = _exc_names(h.type)
+    reraised = set()
+    for n in ast.walk(ast.Module(body=h.body, type_ignores=[])):
+        if isinstance(n, ast.Raise):
+            reraised.add(ods_caught[0] if n.exc is None and len(ods_caught) == 1 else
+                         _u(n.exc.func) if isinstance(n.exc, ast.Call) else '?')
+        if isinstance(n, (ast.Return, ast.Try)):
+            raise TranslateError('%s: the handler returns or nests a try' % what)
+    if not h.body or not isinstance(h.body[-1], ast.Raise) or len(reraised) != 1:
+        raise TranslateError('%s: the handler does not always re-raise one exception class' % what)
+    # katdal.open
+    what = 'katdal.open'
+    op = _func(_parse(repo, 'katdal/__init__.py'), 'open', 'katdal/__init__.py')
+    fors = [s for s in op.body if isinstance(s, ast.For) and _u(s.target) == 'f']
+    if len(fors) != 1:
+        raise TranslateError('%s: loop over file names not found' % what)
+    fb = fors[0].body
+    if len(fb) < 2 or _u(fb[0]) != 'parsed=urllib.parse.urlsplit(f)' or not isinstance(fb[1], ast.If):
+        raise TranslateError('%s: expected `parsed = urllib.parse.urlsplit(f)` then the format dispatch' % what)
+    disp = fb[1]
+
+    def gate(node):
+        if isinstance(node, ast.BoolOp):
+            return '(' + (' || ' if isinstance(node.op, ast.Or) else ' && ').join(gate(v) for v in node.values) + ')'
+        if isinstance(node, ast.UnaryOp) and isinstance(node.op, ast.Not):
+            return '(negb %s)' % gate(node.operand)
+        t = _u(node)
+        table = {"parsed.path.endswith('.rdb')": 'ends_rdb', "parsed.scheme!=''": 'has_scheme', "parsed.scheme==''": '(negb has_scheme)',
+                 'parsed.scheme': 'has_scheme'}
+        if t in table:
+            return table[t]
+        raise TranslateError('%s: unsupported format test %s' % (what, t))
+    v4cond = gate(disp.test)
+    if [_u(s) for s in disp.body] != ['dataset=VisibilityDataV4(open_data_source(f,**kwargs),ref_ant,time_offset,**kwargs)']:
+        raise TranslateError('%s: the v4 branch is not VisibilityDataV4(open_data_source(f, **kwargs), ref_ant, time_offset, **kwargs)' % what)
+    out.append('Definition src_file_scheme : string := %s.' % coq_string(file_scheme))
+    out.append('Definition src_schemes : list string := [%s].' % '; '.join(coq_string(x) for x in schemes))
+    out.append('Definition src_load_caught : list string := [%s].' % '; '.join(coq_string(x) for x in caught))
+    out.append('Definition src_load_raises : string := %s.' % coq_string(raised))
+    out.append('Definition src_unknown_raises : string := %s.' % coq_string(unknown))
+    out.append('Definition ods_catches : list string := [%s].' % '; '.join(coq_string(x) for x in ods_caught))
+    out.append('Definition ods_raises : string := %s.' % coq_string(sorted(reraised)[0]))
+    out.append('Definition open_is_v4 (ends_rdb has_scheme : bool) : bool := %s%%bool.' % v4cond)
+
+
+# --------------------------------------------------------------------------- visdatav4._relative_view
+
+def item_relative_view(repo, out):
+    rel = 'katdal/visdatav4.py'
+    what = '_relative_view'
+    fn = _func(_parse(repo, rel), what, rel)
+    if [a.arg for a in fn.args.args] != ['telstate', 'name']:
+        raise TranslateError('%s: unexpected parameters' % what)
+    body = [_u(s).replace('\n', ';') for s in _body(fn)]
+    if len(body) != 4 or body[0] != 'prefix=telstate.prefixes[-1]' or body[3] != 'returnview':
+        raise TranslateError('%s: unexpected skeleton %s' % (what, ' | '.join(body)[:200]))
+    m = _match(r'view=telstate\.view\(prefix\+name(,exclusive=(True|False))?\)', body[1], what + ' base view')
+    exclusive = m.group(2) == 'True'
+    m = _match(r'forprefixin(reversed\(telstate\.prefixes\[:-1\]\)|telstate\.prefixes\[:-1\]):;view=view\.view\(prefix\+name\)', body[2],
+               what + ' loop')
+    # the call sites: the type of every archived stream and the attributes of the L1 / L2 cal streams are read through it
+    reg = _func(_class(_parse(repo, rel), 'VisibilityDataV4', rel), '_register_standard_cal_streams', rel)
+    rsrc = _u(reg)
+    for need, n in (('attrs=self.source.metadata.attrs', 1), ("archived_streams=attrs.get('sdp_archived_streams',[])", 1),
+                    ('stream_attrs=_relative_view(attrs,stream)', 1), ("stream_type=stream_attrs.get('stream_type')", 1),
+                    ('l1_attrs=_relative_view(attrs,l1_stream)', 1), ('l2_attrs=_relative_view(attrs,l2_streams[0])', 1),
+                    ('.view(', 0), ('_relative_view(', 3)):
+        if rsrc.count(need) != n:
+            raise TranslateError('_register_standard_cal_streams: expected %d x `%s`, found %d' % (n, need, rsrc.count(need)))
+    out.append('Definition rv_exclusive : bool := %s.' % _bool(exclusive))
+    out.append('Definition rv_reversed : bool := %s.' % _bool(m.group(1).startswith('reversed')))
+
+
+ITEMS = [item_view_capture_stream, item_l0_stream, item_upgrade_flags, item_open, item_sensor_loop, item_sources,
+         item_relative_view]
